@@ -339,6 +339,23 @@ def gen_tcp_case(rng, tier):
             "client": {"chunks": chunks, "eof_at": ceof}, "server": {"chunks": schunks, "eof_at": seof}, "flight": kind}
 
 
+def sniff_pause_family():
+    """the sniffing window expires on an incomplete TLS record / incomplete HTTP head, the rest arrives afterwards:
+    everything must be relayed, byte for byte, and both ends of stream honoured"""
+    hello = client_hello()
+    firsts = [("tls7", hello[:7], hello[7:]), ("tls12", hello[:12], hello[12:]), ("http8", HTTP[:8], HTTP[8:]),
+              ("http16", HTTP[:16], HTTP[16:]), ("http20", HTTP[:20], HTTP[20:])]
+    out = []
+    for name, a, b in firsts:
+        for pause in (1020, 6000):
+            cl = [mk_chunk(0, a), mk_chunk(pause, b), mk_chunk(pause + 100, b"", 21, 30)]
+            sv = [mk_chunk(110, b"", 22, 5), mk_chunk(pause + 210, b"", 23, 40)]
+            out.append({"kind": "mem", "port": 443, "outbound": 2, "dial_ip": False, "sniff_ms": 1000, "grace_ms": 0,
+                        "client": {"chunks": cl, "eof_at": pause + 200}, "server": {"chunks": sv, "eof_at": pause + 310},
+                        "flight": "sniffpause_%s_%d" % (name, pause)})
+    return out
+
+
 def grace_family(grace):
     """fixed scenarios: data both ways, the FIRST half-close at relay age {0.5, 1, 1.5, 3} x grace, the other
     direction delivering its remaining bytes half a grace period later and half-closing after that - on every
@@ -623,26 +640,62 @@ def obs_to_coq(case, res):
 # run
 # ----------------------------------------------------------------------------------------------
 
+STUCK_SEEN = [0]
+
+
+def run_harness_resilient(sc, binary, hcases, tag):
+    """run the harness over the cases; a stuck case ends its process (exit 3) after its result is written, a process
+    that dies or times out loses only the case it was running: the rest continues in a fresh process"""
+    results, pos, restarts, total = [], 0, 0, 0.0
+    while pos < len(hcases):
+        inp, outp = sc.path("c05_%s_%d.in" % (tag, restarts)), sc.path("c05_%s_%d.out" % (tag, restarts))
+        with open(inp, "w") as f:
+            for c in hcases[pos:]:
+                f.write(json.dumps(c) + "\n")
+        if os.path.exists(outp):
+            os.remove(outp)
+        rc, so, se, dt = vlib.run_go_harness(binary, "TestVerifC05", inp, outp, timeout=1500, extra_env={"C05_STUCK_SEEN": str(STUCK_SEEN[0])})
+        total += dt
+        got = []
+        if os.path.exists(outp):
+            for l in open(outp):
+                try:
+                    got.append(json.loads(l))
+                except ValueError:
+                    break
+        got = got[:len(hcases) - pos]
+        results += got
+        pos += len(got)
+        if rc == 0 and pos >= len(hcases):
+            break
+        if rc == 3 and got:
+            STUCK_SEEN[0] += 1
+        elif pos < len(hcases):
+            results.append({"hang": "harness process ended (rc=%d) while running this case: %s" % (rc, (so + se)[-1500:])})
+            pos += 1
+            STUCK_SEEN[0] += 1
+        restarts += 1
+        if restarts > 400:
+            return None, "harness restarted more than 400 times"
+    log("harness %s: %d cases %.1fs%s" % (tag, len(hcases), total, " (%d restarts after stuck cases)" % restarts if restarts else ""))
+    return results, None
+
+
 def run_batch(sc, binary, cases, tag):
     """run on the implementation, evaluate in Coq.  A multi-connection case is judged connection by connection
     against the single-connection model and spec (the connections must be independent).
     Returns (errors: case index -> codes (union over its connections), signatures, raw results, error text)"""
-    inp, outp = sc.path("c05_%s.in" % tag), sc.path("c05_%s.out" % tag)
-    with open(inp, "w") as f:
-        for c in cases:
-            f.write(json.dumps(to_harness(c)) + "\n")
-    rc, so, se, dt = vlib.run_go_harness(binary, "TestVerifC05", inp, outp, timeout=3000)
-    log("harness %s: %d cases %.1fs" % (tag, len(cases), dt))
-    if rc != 0:
-        return None, None, None, "harness failed rc=%d: %s %s" % (rc, so[-1500:], se[-1500:])
-    results = [json.loads(l) for l in open(outp)]
-    if len(results) != len(cases):
-        return None, None, None, "harness returned %d results for %d cases" % (len(results), len(cases))
+    results, herr = run_harness_resilient(sc, binary, [to_harness(c) for c in cases], tag)
+    if herr:
+        return None, None, None, herr
     flat = []
     sflat = []
     for i, (c, r) in enumerate(zip(cases, results)):
         if c["kind"] == "splice":
             sflat.append((i, c, r))
+        elif c["kind"] == "multi" and "multi" not in r:
+            r["_sub_codes"] = {"0": [99]}
+            sflat.append((i, c, r))       # recorded below as code 99 (the whole scenario is stuck)
         elif c["kind"] == "multi":
             r["_sub_codes"] = {}
             for j, (cc, rr) in enumerate(zip(c["conns"], r.get("multi") or [])):
@@ -802,6 +855,10 @@ def matcher_of(case, res, codes):
         return "overlapping-connections-other"
     st = res.get("stack") or ""
     wrapped = bool(st) and not st.startswith(("sock", "tcp"))
+    if 99 in codes and str(res.get("hang") or "").startswith("stuck"):
+        if (res.get("stack") or "").startswith("sniffer") and any(r["s"] == 0 and r["e"] == 2 for r in res.get("l_reads") or []):
+            return "relay-blocked-after-sniff-timeout"
+        return "implementation-stuck"
     if 99 in codes:
         if res.get("panic"):
             first = b"".join(chunk_bytes(ch) for ch in case["client"]["chunks"])[:2]
@@ -982,7 +1039,7 @@ def main(argv):
         if os.path.isdir(cdir):
             for n in sorted(os.listdir(cdir)):
                 corpus.append(json.load(open(os.path.join(cdir, n))))
-        cases = (corpus + grace_family(consts["half_close"]) + [gen_case(rng, args.tier) for _ in range(n_mem)] + [gen_multi_case(rng, args.tier) for _ in range(n_multi)]
+        cases = (corpus + sniff_pause_family() + grace_family(consts["half_close"]) + [gen_case(rng, args.tier) for _ in range(n_mem)] + [gen_multi_case(rng, args.tier) for _ in range(n_multi)]
                  + tcp_gate_family(args.tier) + [gen_tcp_case(rng, args.tier) for _ in range(n_tcp)] + gen_splice_cases(rng, args.tier))
         all_err, sigs, all_res = {}, [], {}
         tie_broken = None
@@ -1004,10 +1061,16 @@ def main(argv):
         run_all(cases, 0, "b")
         # retry timeout-classified failures with the harness' patience x4, x16, x16 before believing them
         retried_passed, retried_failed = 0, 0
-        pending = [i for i in sorted(all_err) if not tie_broken and timeout_classified(cases[i], all_err[i])]
+        cand = [i for i in sorted(all_err) if not tie_broken and timeout_classified(cases[i], all_err[i])]
+        # stuck verdicts: re-run only the first two with doubled patience; when they are stuck again the
+        # implementation hangs and the others are believed (each would cost its full patience again)
+        stuck = [i for i in cand if 99 in all_err[i]]
+        pending = [i for i in cand if 99 not in all_err[i]] + stuck[:2]
         n_retry = len(pending)
-        for scale in (4, 16, 16):
-            if not pending:
+        unretried_stuck = stuck[2:]
+        passed_on_retry = [0]
+        for scale in (2, 4, 16):
+            if not pending or (scale == 16 and len(pending) > 2):
                 break
             errs, _, results, err = run_batch(sc, binary, [dict(cases[i], wait_scale=scale) for i in pending], "retry%d" % scale)
             if err:
@@ -1016,12 +1079,17 @@ def main(argv):
             for j, i in enumerate(pending):
                 if errs.get(j):
                     all_err[i], all_res[i] = errs[j], results[j]
-                    still.append(i)
+                    if not (99 in errs[j] and scale >= 2 and i in stuck):
+                        still.append(i)
+                    else:
+                        unretried_stuck.append(i)      # stuck again with doubled patience: final
                 else:
                     del all_err[i]
+                    passed_on_retry[0] += 1
             pending = still
+        pending = pending + [i for i in unretried_stuck if i in all_err]
         retried_failed = len(pending)
-        retried_passed = n_retry - retried_failed
+        retried_passed = passed_on_retry[0]
         widened = False
         only_tie = any(not is_spec_fail(e) for e in all_err.values())
         if ((not proof_ok) or only_tie) and not tie_broken and not any(is_spec_fail(e) for e in all_err.values()):
@@ -1041,7 +1109,7 @@ def main(argv):
         for mname, idxs in sorted(classes.items()):
             i = idxs[0]
             known = any(e["property"] == PID and e["match"] == mname for e in out.kf["open"])
-            sh = shrink(sc, binary, cases[i], mname) if (mname not in ("harness-panic-or-hang", "implementation-panic") and not known) else None
+            sh = shrink(sc, binary, cases[i], mname) if (mname not in ("harness-panic-or-hang", "implementation-panic", "implementation-stuck", "relay-blocked-after-sniff-timeout") and not known) else None
             small, codes_s, r = sh if sh else (cases[i], all_err[i], all_res.get(i, {}))
             errs = {0: codes_s}
             r = strip_obs(r)
@@ -1078,7 +1146,7 @@ def main(argv):
         for c in cases:
             flights[c.get("flight", "?")] = flights.get(c.get("flight", "?"), 0) + 1
         cov.update(evaluations=n_eval, distinct_nontrivial=nontrivial, distinct_signatures=distinct,
-                   rule="random connection scripts: first flight (none/HTTP variants/TLS full+partial/SSH/binary/port-53 frames: short, garbage, DNS response, oversized, incomplete) segmented at 1,2,15,16,17,half,len-1 with gaps around the sniff (1 s) and DNS (5 s) windows +-20 ms, follow-up payloads incl. 4095-4097 and 32767-32769 bytes, both orders of the two ends of stream, server data around client-EOF + grace +-10 ms, ports 53/22/3306 (excluded) and 80/443/8080, outbounds direct/block/user, dial mode ip; splice-pool scenarios on real sockets (back-pressured upload ended at each exit of relaySpliceCopyExact - ctx at the loop top after the n-th partial / n-th drain, cancelled while blocked, upstream reset, clean EOF - then 1-3 healthy connections reusing the pooled pipes; pool fill levels observed); real-socket gate family (bufio/prefixed/sniffer stacks, the client's next segment pending in the socket when the relay starts, sizes around 4096 and 32768); fixed half-close family (first half-close at relay age 0.5/1/1.5/3 x grace, remaining bytes of the other direction half a grace later, every wrapper stack, either side first); overlapping-connection scenarios (2-4 connections over the shared buffer pools on one P: each prologue runs while others are parked between prologue and relay, random valid orders, every connection judged on its own bytes); "
+                   rule="random connection scripts: first flight (none/HTTP variants/TLS full+partial/SSH/binary/port-53 frames: short, garbage, DNS response, oversized, incomplete) segmented at 1,2,15,16,17,half,len-1 with gaps around the sniff (1 s) and DNS (5 s) windows +-20 ms, follow-up payloads incl. 4095-4097 and 32767-32769 bytes, both orders of the two ends of stream, server data around client-EOF + grace +-10 ms, ports 53/22/3306 (excluded) and 80/443/8080, outbounds direct/block/user, dial mode ip; splice-pool scenarios on real sockets (back-pressured upload ended at each exit of relaySpliceCopyExact - ctx at the loop top after the n-th partial / n-th drain, cancelled while blocked, upstream reset, clean EOF - then 1-3 healthy connections reusing the pooled pipes; pool fill levels observed); real-socket gate family (bufio/prefixed/sniffer stacks, the client's next segment pending in the socket when the relay starts, sizes around 4096 and 32768); sniff-pause family (sniffing window expires on an incomplete TLS record / HTTP head, the rest arrives 20 ms or 5 s later); fixed half-close family (first half-close at relay age 0.5/1/1.5/3 x grace, remaining bytes of the other direction half a grace later, every wrapper stack, either side first); overlapping-connection scenarios (2-4 connections over the shared buffer pools on one P: each prologue runs while others are parked between prologue and relay, random valid orders, every connection judged on its own bytes); "
                         "signature = (stack at relay start x holds-bytes, detection stages run, ending alive/error/clean, order of the ends of stream, stale-deadline/sticky-error/spin bits); non-trivial = a wrapper on the stack or at least one end of stream",
                    traces_validated_against_impl=sum((len(c["conns"]) if c["kind"] == "multi" else 1) for i, c in enumerate(cases)
                                                      if c["kind"] in ("mem", "multi") and not is_model_fail(all_err.get(i, []))),
